@@ -98,7 +98,7 @@ def gen_main(outcome):
     a("int main(void) {")
     a("  char *line = NULL; size_t cap = 0; ssize_t len;")
     a("  memset(&S, 0xAA, sizeof S);")
-    a("  alarm(10);")
+    a("  { const char *al = getenv(\"DRV_ALARM\"); alarm(al ? atoi(al) : 10); }")
     a("  while ((len = getline(&line, &cap, stdin)) > 0) {")
     a("    if (line[len-1] == '\\n') line[--len] = 0;")
     a('    if (!strcmp(line, "start")) {')
